@@ -364,6 +364,7 @@ def run_jit(rep, prop, tier, seed):
             ("get_cached_module", True), ("_compile_objects", True)]
     want = {"C14": ("O1", "O2", "O3", "O7"), "C15": ("O4", "O5", "O3e", "O2")}[prop]
     total_assumed = set()
+    replayed = set()
     for fname, cache in plan:
         try:
             mk = args_gcm if fname == "get_cached_module" else (args_co if fname == "_compile_objects" else args_compile(cache, fname))
@@ -391,11 +392,25 @@ def run_jit(rep, prop, tier, seed):
                        sample=dict(obligation=name, trace=[list(e) for e in p["trace"]]) if len(rep.samples) < 2 else None)
             else:
                 fault = next((e[1] for e in p["trace"] if e[0] == "fault"), "no fault")
-                rep.violation(f"jit:{fname}:{o}:{fault}", f"{name}: violated on the path with {fault}",
+                key = f"jit:{fname}:{o}:{fault}"
+                if any(v["key"] == key for v in rep.violations):
+                    continue
+                native = None
+                if fname == "compile_forms" and cache and key not in replayed:
+                    replayed.add(key)
+                    try:
+                        from checks.jit_replay import replay as native_replay
+
+                        native = native_replay(o, fault)
+                    except Exception as e:  # noqa: BLE001
+                        native = ("unsupported", dict(reason=f"replay crashed: {type(e).__name__}: {e}"))
+                rep.violation(key, f"{name}: violated on the path with {fault}"
+                              + (" - reproduced on the real compile_forms with the fault injected" if native and native[0] == "violation" else ""),
                               dict(function=f"ffcx/codegeneration/jit.py::{fname}", obligation=name,
                                    trace=[list(e) for e in p["trace"]], decisions=p["decisions"], outcome=p["outcome"],
-                                   how_to_replay="checks/jit_replay.py: run the real compile_forms with the named fault injected"),
-                              no_input=True)
+                                   native_replay=native,
+                                   how_to_replay="checks/jit_replay.py: replay(obligation tag, fault label) runs the real compile_forms with the fault injected"),
+                              no_input=not (native and native[0] == "violation"))
     rep.assume("fault model: compile_ufl_objects, cffi set_source/cdef/compile, importlib calls and any call not whitelisted may raise; "
                "creating/writing the ready marker and os.replace do not fail; a kill may happen between any two actions",
                "whitelisted as total (cannot raise): " + ", ".join(sorted(total_assumed)),
